@@ -21,6 +21,17 @@ CLAIMS = {
          "bounds; default-mode and zero-divisor behaviour. The dispatch around the kernels "
          "(Quantity.quantize / round) is tied by correspondence against the real code.",
          "6 C13", NOTE + "decimalfp's Decimal.quantize is hand-modelled (decQuantize) and checked by correspondence."),
+ "C07": ("Lean 4 proof (denotational semantics of the term model) + differential correspondence",
+         "Theorems (Props/C07.lean): every path of _reduce_items (all n_items shortcuts, both "
+         "keep_item_order modes), normalisation, product, quotient, reciprocal, power and scalar "
+         "operations preserve / compute the value a term denotes under EVERY admissible valuation "
+         "of its elements; equality is sound and implies equal hash keys; split/num_elem agree; "
+         "shape of the numeric part of the normal form. The hand-written model is tied to "
+         "term.py by running ~1.7k operations per run on random element environments against "
+         "the real Term class. Partial: completeness of equality is false of the code for "
+         "non-convertible elements sharing a sort key (known finding D5, negation proved); "
+         "ordering/uniqueness of the non-numeric part of the normal form is checked by the oracle, not proved.",
+         "6 C07", NOTE),
 }
 
 def main():
